@@ -470,6 +470,22 @@ func readRequest(br *bufio.Reader) (*Request, error) {
 	return r, nil
 }
 
+// outQueue is an unbounded output queue in front of a connection.
+type outQueue struct {
+	w   io.Writer
+	buf []byte
+}
+
+func (q *outQueue) Write(p []byte) (int, error) { q.buf = append(q.buf, p...); return len(p), nil }
+func (q *outQueue) Flush() error {
+	if len(q.buf) == 0 {
+		return nil
+	}
+	_, err := q.w.Write(q.buf)
+	q.buf = q.buf[:0]
+	return err
+}
+
 // Serve handles one backend connection until it is closed.
 func (s *Store) Serve(c io.ReadWriteCloser) {
 	id := int(atomic.AddInt64(&s.nextConn, 1))
@@ -485,7 +501,10 @@ func (s *Store) Serve(c io.ReadWriteCloser) {
 		atomic.AddInt64(&s.Closed, 1)
 	}()
 	br := bufio.NewReaderSize(c, 1<<16)
-	bw := bufio.NewWriterSize(c, 1<<16)
+	// replies to quiet requests are queued in memory without bound and written at the next flush
+	// point, as memcached does: a client that pipelines many quiet gets before reading anything
+	// must not be throttled by the size of a write buffer
+	bw := &outQueue{w: c}
 	for {
 		r, err := readRequest(br)
 		if err != nil {
@@ -562,8 +581,10 @@ func (s *Store) Serve(c io.ReadWriteCloser) {
 		if b != nil {
 			bw.Write(b)
 		}
-		// flush when nothing more is buffered on the input side (pipelined quiet gets)
-		if br.Buffered() == 0 || !isQuiet(r.Op) {
+		// flush when nothing more is buffered on the input side: like memcached, which processes
+		// what it has read and then writes the queued replies with one gathering write (many tiny
+		// writes would exhaust a unix socket's buffer accounting and stall a pipelining client)
+		if br.Buffered() == 0 {
 			if err := bw.Flush(); err != nil {
 				return
 			}
